@@ -483,6 +483,8 @@ class Unit:
         return Unit(
             self.expr**p,
             base_value=(self.base_value**p),
+            # the first power of an offset unit is that unit, zero point included
+            base_offset=(self.base_offset if p == 1 else 0.0),
             dimensions=(self.dimensions**p),
             registry=self.registry,
         )
